@@ -157,7 +157,8 @@ def msgVerdict (c : Cfg) (from_ : List Addr) (typ : Nat) (impl : String) : Strin
         let u := a.addr.unmap
         if inMyNets c u || !c.ral.allow v u then
           some (if a.addr.is4in6 then "addr-mapped-v6-entry-bypasses-filter"
-                else if inMyNets c u then "addr-punch-inside-overlay" else "addr-punch-denied")
+                else if inMyNets c u then "addr-punch-inside-overlay"
+                else if AllowList.allow c.ral.allowList u then "addr-punch-denied-by-peer-range" else "addr-punch-denied")
         else none
       | _, _ => some "addr-punch-unparsable"
     | _ => some "addr-punch-unparsable"
